@@ -64,29 +64,29 @@ func (u *User) GetTOTPLastCode() string         { return u.TOTPLastCode }
 func (u *User) GetSMSPhoneNumber() string       { return u.SMSPhoneNumber }
 func (u *User) GetRecoveryCodes() string        { return u.RecoveryCodes }
 
-func (u *User) PutPID(pid string)                   { u.PID = pid }
-func (u *User) PutEmail(email string)               { u.Email = email }
-func (u *User) PutPassword(password string)         { u.Password = password }
-func (u *User) PutRecoverSelector(s string)         { u.RecoverSelector = s }
-func (u *User) PutRecoverVerifier(s string)         { u.RecoverVerifier = s }
-func (u *User) PutRecoverExpiry(t time.Time)        { u.RecoverTokenExpiry = t }
-func (u *User) PutConfirmSelector(s string)         { u.ConfirmSelector = s }
-func (u *User) PutConfirmVerifier(s string)         { u.ConfirmVerifier = s }
-func (u *User) PutConfirmed(c bool)                 { u.Confirmed = c }
-func (u *User) PutAttemptCount(n int)               { u.AttemptCount = n }
-func (u *User) PutLastAttempt(t time.Time)          { u.LastAttempt = t }
-func (u *User) PutLocked(t time.Time)               { u.Locked = t }
-func (u *User) PutOAuth2UID(uid string)             { u.OAuth2UID = uid }
-func (u *User) PutOAuth2Provider(p string)          { u.OAuth2Provider = p }
-func (u *User) PutOAuth2AccessToken(t string)       { u.OAuth2Token = t }
-func (u *User) PutOAuth2RefreshToken(t string)      { u.OAuth2Refresh = t }
-func (u *User) PutOAuth2Expiry(t time.Time)         { u.OAuth2Expiry = t }
-func (u *User) PutArbitrary(arb map[string]string)  { u.Arbitrary = arb }
-func (u *User) PutOTPs(otps string)                 { u.OTPs = otps }
-func (u *User) PutTOTPSecretKey(key string)         { u.TOTPSecretKey = key }
-func (u *User) PutTOTPLastCode(code string)         { u.TOTPLastCode = code }
-func (u *User) PutSMSPhoneNumber(number string)     { u.SMSPhoneNumber = number }
-func (u *User) PutRecoveryCodes(codes string)       { u.RecoveryCodes = codes }
+func (u *User) PutPID(pid string)                  { u.PID = pid }
+func (u *User) PutEmail(email string)              { u.Email = email }
+func (u *User) PutPassword(password string)        { u.Password = password }
+func (u *User) PutRecoverSelector(s string)        { u.RecoverSelector = s }
+func (u *User) PutRecoverVerifier(s string)        { u.RecoverVerifier = s }
+func (u *User) PutRecoverExpiry(t time.Time)       { u.RecoverTokenExpiry = t }
+func (u *User) PutConfirmSelector(s string)        { u.ConfirmSelector = s }
+func (u *User) PutConfirmVerifier(s string)        { u.ConfirmVerifier = s }
+func (u *User) PutConfirmed(c bool)                { u.Confirmed = c }
+func (u *User) PutAttemptCount(n int)              { u.AttemptCount = n }
+func (u *User) PutLastAttempt(t time.Time)         { u.LastAttempt = t }
+func (u *User) PutLocked(t time.Time)              { u.Locked = t }
+func (u *User) PutOAuth2UID(uid string)            { u.OAuth2UID = uid }
+func (u *User) PutOAuth2Provider(p string)         { u.OAuth2Provider = p }
+func (u *User) PutOAuth2AccessToken(t string)      { u.OAuth2Token = t }
+func (u *User) PutOAuth2RefreshToken(t string)     { u.OAuth2Refresh = t }
+func (u *User) PutOAuth2Expiry(t time.Time)        { u.OAuth2Expiry = t }
+func (u *User) PutArbitrary(arb map[string]string) { u.Arbitrary = arb }
+func (u *User) PutOTPs(otps string)                { u.OTPs = otps }
+func (u *User) PutTOTPSecretKey(key string)        { u.TOTPSecretKey = key }
+func (u *User) PutTOTPLastCode(code string)        { u.TOTPLastCode = code }
+func (u *User) PutSMSPhoneNumber(number string)    { u.SMSPhoneNumber = number }
+func (u *User) PutRecoveryCodes(codes string)      { u.RecoveryCodes = codes }
 
 // Clone returns a copy (database semantics: Load hands out copies, Save copies back).
 func (u *User) Clone() *User {
